@@ -57,6 +57,9 @@ fn wb_run(report: &mut Report, seed: u64, rid: u64, dir: &str) {
         model.insert(k, v);
     };
     let nkeys = match pattern {
+        // a single shard gets exactly one full batch (1024 entries) of real writes; what follows it in the same
+        // drain are insert+delete pairs that cancel out and need no device I/O at all
+        1 if shards == 1 => 1024,
         1 => 1100 * shards.max(1),
         4 => 40 * shards.max(1),
         _ => 64 * shards.max(1) + rng.usize_below(64),
@@ -281,6 +284,14 @@ fn wb_run(report: &mut Report, seed: u64, rid: u64, dir: &str) {
             put(&store, &mut model, k, len);
         }
     }
+    if pattern == 1 && shards == 1 {
+        for i in 0..400 {
+            let k = format!("cancel-{i:04}").into_bytes();
+            let _ = store.insert(&k, &values::make(Tag { key_id: kid(&k), writer: 3, seq: i }, 30));
+            let _ = store.delete(&k);
+        }
+        report.count("runs_with_trailing_batches_without_io", 1);
+    }
     let occupancy = store.verif_pending().map(|p| p.shard_counts.clone()).unwrap_or_default();
     let last_return = Instant::now();
     // target keys durable?
@@ -435,6 +446,25 @@ pub fn child(args: &Args) -> ! {
         max_call_us.set(max_call_us.get().max(us));
     };
     let cpus = *rng.pick(&[2usize, 4, 16]);
+    let _ = hub(); // install the monitor: the retry-round bound below is reported through a hook
+    // every scenario: a call that burns 20 s of its own thread's CPU time without returning, or a flush()
+    // still going round its retry loop after 30000 rounds, is a livelock - reported as this run's result
+    {
+        let (dir, scenario_id, rid) = (dir.clone(), scenario, rid);
+        crate::callwatch::supervise(
+            20.0,
+            Arc::new(move |call: String, burnt: f64| {
+                let msg = if burnt > 0.0 {
+                    format!("VIOLATION {call} has burnt {burnt:.0} s of its own thread's CPU time without returning (a retry loop that cannot make progress)")
+                } else {
+                    format!("VIOLATION {call}: the call does not terminate although the device answers and no reader is held")
+                };
+                let out = json!({"scenario": scenario_id, "run": rid, "calls": 0, "max_call_us": 0, "wall_s": 0.0, "notes": [msg], "cpus": 0});
+                std::fs::write(format!("{dir}/live-{scenario_id}-{rid}.json"), out.to_string()).unwrap();
+                std::process::exit(0);
+            }),
+        );
+    }
     match scenario {
         // concurrent flush() callers + writers + readers on the same keys, with parks inside the flusher
         0 => {
@@ -711,20 +741,7 @@ pub fn child(args: &Args) -> ! {
                     }
                 })));
             }
-            {
-                let l = livelock.clone();
-                let (dir, scenario_id, rid) = (dir.clone(), scenario, rid);
-                crate::callwatch::supervise(
-                    20.0,
-                    Arc::new(move |call: String, burnt: f64| {
-                        let msg = format!("VIOLATION {call} has burnt {burnt:.0} s of its own thread's CPU time without returning (a retry loop that cannot make progress); the key is private to the calling thread, nobody else will change it");
-                        *l.lock() = Some(msg.clone());
-                        let out = json!({"scenario": scenario_id, "run": rid, "calls": 0, "max_call_us": 0, "wall_s": 0.0, "notes": [msg], "cpus": 0});
-                        std::fs::write(format!("{dir}/live-{scenario_id}-{rid}.json"), out.to_string()).unwrap();
-                        std::process::exit(0);
-                    }),
-                );
-            }
+            let _ = &livelock;
             let mut hs = Vec::new();
             for w in 0..6u64 {
                 let s = store.clone();
